@@ -34,7 +34,48 @@ def main():
         json.load(open(C.KNOWN_FINDINGS))
     rs = C.use_repo()
     print('rxsci under test:', os.path.dirname(rs.__file__))
-    return 1 if bad else 0
+    n_fn, fn_bad = check_fnlib()
+    print('FnLib: %d function values compared between spec/FnLib.tla and harness/mux.py, %d differ'
+          % (n_fn, len(fn_bad)))
+    for b in fn_bad[:10]:
+        print('  FnLib mismatch:', b)
+    return 1 if bad or fn_bad else 0
+
+
+def check_fnlib():
+    """the TLA+ and the python implementation of the user-function library agree on the
+    whole finite test domain"""
+    from harness import mux as M
+    r = C.run_tlc('FnLibCheck', C.cfg(), workers=1)
+    rows = C.extract_printed(r.stdout, 'FN')
+    bad = []
+
+    def call(kind, name, c, arg):
+        f = {'n': name, 'c': c}
+        try:
+            if kind == 'u' or kind == 'e':
+                if kind == 'e':
+                    return M.enc(M.mk_fn(f)(M.VerifError(arg[1])))
+                return M.enc(M.mk_fn(f)(M.dec(arg)))
+            if kind == 'p':
+                return M.enc(M.mk_pred(f)(M.dec(arg)))
+            if kind == 'a':
+                import copy
+                return M.enc(M.mk_acc(f)(copy.deepcopy(M.dec(arg[0])), M.dec(arg[1])))
+            if kind == 'q':
+                return M.mk_pred2(f)(M.dec(arg[0]), M.dec(arg[1]))
+            if kind == 's':
+                return M.enc(M.mk_star(f)(*M.dec(arg)))
+        except M.VerifError as e:
+            return ['x', e.code]
+        raise C.MachineryError('unknown kind %r' % kind)
+    for (_, kind, name, c, arg, val) in rows:
+        got = call(kind, name, c, arg)
+        if got != val:
+            bad.append((kind, name, c, arg, 'tla', val, 'python', got))
+    if len(rows) < 500:
+        raise C.MachineryError('FnLibCheck printed only %d rows' % len(rows))
+    return len(rows), bad
 
 
 if __name__ == '__main__':
